@@ -652,6 +652,23 @@ func vC13Strs(xs []string) string {
 	return cqListOf(xs, func(s string) string { return fmt.Sprintf("%q", s) })
 }
 
+// atoms: the guard atoms of the table in order of first appearance (the order of Check.C13.all_atoms)
+func (n *vC13Notes) atoms() [][2]string {
+	seen := map[[2]string]bool{}
+	var out [][2]string
+	for _, r := range n.Table {
+		for _, a := range r.Atoms {
+			k := [2]string{a.Field, a.Test}
+			if !seen[k] {
+				seen[k] = true
+				out = append(out, k)
+			}
+		}
+	}
+	return out
+}
+
+// term prints an observation as a Check.C13.step: components and atoms by their position in the table
 func (s *vC13Sess) term(o vC13Obs, relevant map[string]bool) string {
 	var ch, pf []string
 	for _, f := range o.changed {
@@ -664,13 +681,27 @@ func (s *vC13Sess) term(o vC13Obs, relevant map[string]bool) string {
 			pf = append(pf, f)
 		}
 	}
-	var ids []string
-	for _, r := range s.notes.Table {
-		if g, ok := o.ident[r.Comp]; ok {
-			ids = append(ids, cqPair(fmt.Sprintf("%q", r.Comp), cqZ(g)))
+	var ids, en, at []string
+	isEn := map[string]bool{}
+	for _, c := range o.enabled {
+		isEn[c] = true
+	}
+	for i, r := range s.notes.Table {
+		ids = append(ids, cqZ(o.ident[r.Comp]))
+		if isEn[r.Comp] {
+			en = append(en, cqZ(int64(i)))
 		}
 	}
-	return cqApp("Step", vC13Strs(ch), vC13Strs(pf), vC13Pairs(o.atomsTrue), vC13Strs(o.enabled), cqList(ids),
+	isTrue := map[[2]string]bool{}
+	for _, a := range o.atomsTrue {
+		isTrue[a] = true
+	}
+	for i, a := range s.notes.atoms() {
+		if isTrue[a] {
+			at = append(at, cqZ(int64(i)))
+		}
+	}
+	return cqApp("Step", vC13Strs(ch), vC13Strs(pf), cqList(at), cqList(en), cqList(ids),
 		vC13Pairs(o.notHeld), vC13Pairs(o.stale))
 }
 
@@ -801,7 +832,7 @@ moqQUICAddress: :%d
 	}
 	sort.Slice(skipped, func(i, j int) bool { return skipped[i][0]+"."+skipped[i][1] < skipped[j][0]+"."+skipped[j][1] })
 	out.extra["not_compared"] = skipNotes
-	skippedTerm := vC13Pairs(skipped)
+	_ = skipped
 
 	maxCompared := 0
 	reloadErrors := map[string]string{}
@@ -984,7 +1015,7 @@ moqQUICAddress: :%d
 			desc["before_not_holding"] = init.notHeld
 			desc["before_stale"] = init.stale
 		}
-		out.Case(cqApp("History", skippedTerm, s.term(init, relevant), cqList(terms)), desc, class, nontrivial)
+		out.Case(cqApp("History", s.term(init, relevant), cqList(terms)), desc, class, nontrivial)
 		return okSteps
 	}
 
@@ -1086,7 +1117,7 @@ moqQUICAddress: :%d
 				}
 				track(back)
 				if o, err := s.reload(back); err == nil {
-					out.Case(cqApp("History", skippedTerm, s.term(init, relevant), cqList([]string{s.term(o, relevant)})),
+					out.Case(cqApp("History", s.term(init, relevant), cqList([]string{s.term(o, relevant)})),
 						map[string]any{"kind": "sweep-restore", "steps": []any{map[string]any{"changed": []string{f}, "instances": o.ident,
 							"not_holding_the_new_value": o.notHeld, "stale_references": o.stale}}}, "sweep-restore", true)
 				} else {
